@@ -15,6 +15,7 @@ import sys
 import warnings
 from fractions import Fraction as F
 
+import canon
 import common
 import coreops
 import fbagen
@@ -27,6 +28,7 @@ common.ensure_repo_on_path()
 from cobra.flux_analysis.loopless import add_loopless, loopless_solution  # noqa: E402
 
 TOL = 1e-6
+canon_num = canon.num
 EPS = F(1, 10 ** 7)
 
 
@@ -91,6 +93,29 @@ def check_solution_case(case):
         if sol0.status != "optimal":
             return None, "not-feasible"
         start = {r: float(sol0.fluxes[r]) for r in rids}
+        if case["give_fluxes"] and case.get("push"):
+            # another optimal start vector: the objective is pinned and one internal flux is pushed to an extreme (this drives cycles, in
+            # either direction, as far as the bounds allow); the pushed vector is checked to be a feasible optimum before it is used
+            rid, sense = case["push"]
+            if rid in rids:
+                with m:
+                    fix = m.problem.Constraint(m.objective.expression, lb=sol0.objective_value - 1e-9, ub=sol0.objective_value + 1e-9, name="pin_c17")
+                    m.add_cons_vars([fix])
+                    m.objective = m.reactions.get_by_id(rid)
+                    m.objective_direction = sense
+                    s2 = m.optimize()
+                    if s2.status == "optimal":
+                        cand = {r: float(s2.fluxes[r]) for r in rids}
+                        if not feasibility_problems(spec, cand):
+                            start = cand
+        if case["give_fluxes"] and case.get("interleave"):
+            # an unrelated LP is solved on the same model and reverted before the loopless call
+            rid, sense = case["interleave"]
+            if rid in rids:
+                with m:
+                    m.objective = m.reactions.get_by_id(rid)
+                    m.objective_direction = sense
+                    m.slim_optimize()
         try:
             if case["give_fluxes"]:
                 res = loopless_solution(m, fluxes=dict(start))
@@ -119,7 +144,7 @@ def check_solution_case(case):
                     if not close(b, a, 1e-6):
                         fails.append(f"boundary flux {r['id']} changed from {a} to {b}")
                 else:
-                    if a * b < -1e-9:
+                    if (a >= 0 and b < -TOL) or (a <= 0 and b > TOL):
                         fails.append(f"{r['id']} reversed direction: {a} -> {b}")
                     if abs(b) > abs(a) + 1e-6 * (1 + abs(a)):
                         fails.append(f"{r['id']} grew in magnitude: {a} -> {b}")
@@ -240,9 +265,35 @@ def check_add_loopless_case(case):
 
 
 def gen_case(rng, tier):
-    if rng.random() < 0.8:
-        return {"kind": "solution", "spec": gen_spec(rng), "give_fluxes": rng.random() < 0.6}
-    return {"kind": "add_loopless", "spec": gen_spec(rng, max_int=4 if tier == "quick" else 5)}
+    if rng.random() < 0.7:
+        spec = gen_spec(rng)
+        rids = [r["id"] for r in spec["rxns"]]
+        internal = [r["id"] for r in spec["rxns"] if not is_boundary(r)] or rids
+        cyc = [r for r in spec["rxns"] if r["id"].startswith("C")]
+        if cyc and rng.random() < 0.5:
+            # a fully reversible cycle, driven backwards in the start vector
+            for r in cyc:
+                r["lb"], r["ub"] = rng.choice(["-10", "-1000"]), rng.choice(["10", "1000"])
+            return {"kind": "solution", "spec": spec, "give_fluxes": True, "push": [rng.choice(cyc)["id"], rng.choice(["min", "min", "max"])],
+                    "interleave": None}
+        return {"kind": "solution", "spec": spec, "give_fluxes": rng.random() < 0.7,
+                "push": [rng.choice(internal), rng.choice(["max", "min"])] if rng.random() < 0.6 else None,
+                "interleave": [rng.choice(rids), rng.choice(["max", "min"])] if rng.random() < 0.4 else None}
+    spec = gen_spec(rng, max_int=4 if tier == "quick" else 5)
+    if rng.random() < 0.5:
+        # the largest bound magnitude is a lower bound: upper bounds small, lower bounds far below
+        cap = rng.choice(["5", "10", "20"])
+        for r in spec["rxns"]:
+            if F(r["ub"]) > F(cap):
+                r["ub"] = cap if F(r["lb"]) <= F(cap) else r["lb"]
+            if F(r["lb"]) < 0 and rng.random() < 0.7:
+                r["lb"] = rng.choice(["-1000", "-200"])
+    elif rng.random() < 0.25:
+        # unit-scale model: every bound at most 1 in magnitude
+        for r in spec["rxns"]:
+            r["lb"] = canon_num(max(F(r["lb"]), F(-1)) if F(r["lb"]) < 0 else min(F(r["lb"]), F(1, 4)))
+            r["ub"] = canon_num(max(min(F(r["ub"]), F(rng.choice([1, 1, 2]), 2)), F(r["lb"])))
+    return {"kind": "add_loopless", "spec": spec}
 
 
 def check_case(case):
@@ -267,9 +318,11 @@ def run(ctx):
     skipped, kinds = {}, {"solution": 0, "add_loopless": 0, "with_cycle_reactions": 0, "min_direction": 0}
     distinct = set()
     samples = []
+    corpus = common.load_corpus("C17")
+    kinds["corpus"] = len(corpus)
     while ran < n and tries < n * 3 and not ctx.violations:
         tries += 1
-        case = gen_case(rng, ctx.tier)
+        case = corpus.pop(0) if corpus else gen_case(rng, ctx.tier)
         fails, why = check_case(case)
         if fails is None:
             skipped[why] = skipped.get(why, 0) + 1
